@@ -8,7 +8,7 @@
   of its ranks holds exactly `S` (`solidFor`); `support votes S` is the number of such votes.  A refusal
   (`Err.notImplemented`, unresolved tie) is an allowed outcome, so the theorems speak about `.ok` outcomes.
 -/
-import VotelibProofs.Lemmas.STVShape
+import VotelibProofs.Lemmas.STVTotal
 import VotelibModel.Gen.Quota
 namespace VL.C04
 open VL VL.STV
@@ -104,6 +104,62 @@ theorem result_shape {E : Engine} (hE : EngineOK E) {cfg : Cfg} {votes : Profile
     obtain ⟨p, hp, rfl⟩ := List.mem_map.mp (hperm.mem_iff.mp hc)
     exact hj.sub p hp
 
+/-- the Droop and Hare quotas of a profile with non-negative counts are positive whenever they are computed -/
+theorem droop_positive {cfg : Cfg} (hc : cfg.quota = some Gen.Quota.droop) {votes : Profile} (hwf : WFVotes votes) (n : Nat) :
+    ∀ q, computeQuota cfg (totalVotes votes) n = some q → 0 < q := by
+  intro q hq
+  unfold computeQuota at hq
+  rw [hc] at hq
+  simp only at hq
+  split at hq
+  · injection hq with hq
+    subst hq
+    have hv := totalVotes_nonneg hwf
+    have h2 : (0 : Rat) ≤ totalVotes votes / (((n + 1 : Nat) : Nat) : Rat) := div_nonneg hv (Nat.cast_nonneg _)
+    unfold Gen.Quota.droop Py.pyInt
+    rw [if_pos h2]
+    have : (0 : Int) ≤ (totalVotes votes / (((n + 1 : Nat) : Nat) : Rat)).floor :=
+      Rat.le_floor_iff.mpr (by simpa using h2)
+    have h3 : (0 : Rat) ≤ ((totalVotes votes / (((n + 1 : Nat) : Nat) : Rat)).floor : Rat) := by exact_mod_cast this
+    push_cast at h3 ⊢
+    linarith
+  · cases hq
+
+theorem hare_positive {cfg : Cfg} (hc : cfg.quota = some Gen.Quota.hare) {votes : Profile} (hwf : WFVotes votes) (n : Nat) :
+    ∀ q, computeQuota cfg (totalVotes votes) n = some q → 0 < q := by
+  intro q hq
+  unfold computeQuota at hq
+  rw [hc] at hq
+  simp only at hq
+  split at hq
+  · rename_i hne
+    injection hq with hq
+    subst hq
+    have hv := totalVotes_nonneg hwf
+    have hpos : 0 < totalVotes votes := lt_of_le_of_ne hv (Ne.symm hne.1)
+    unfold Gen.Quota.hare
+    exact div_pos hpos (by exact_mod_cast Nat.pos_of_ne_zero hne.2)
+  · cases hq
+
+/-- **No stall, full list or declared refusal.**  For the default selector (`eliminate_step = -1`, no
+    `mandatory_quota`) with Gregory transfer, a positive quota or none, and `n` seats among at least `n`
+    candidates, `evaluate` either refuses with `NotImplementedError` (an unresolved tie) or returns exactly `n`
+    distinct candidates.  In particular `VotingSystemError('infinite loop in STV')` cannot occur. -/
+theorem full_list_or_refusal {votes : Profile} {cfg : Cfg} {n : Nat} (hstep : cfg.step = some (-1))
+    (hmand : cfg.mandatory = false) (hq : ∀ q, computeQuota cfg (totalVotes votes) n = some q → 0 < q)
+    (hn : n ≤ (allRanked votes).length) (ds : List Draw) :
+    selectorEvaluate gregory cfg votes n ds = .error .notImplemented ∨
+    ∃ l, selectorEvaluate gregory cfg votes n ds = .ok l ∧ l.length = n ∧ l.Nodup ∧ ∀ c ∈ l, c ∈ allRanked votes := by
+  rcases selector_total ⟨hstep, hmand, hq⟩ hn ds with h | ⟨l, h⟩
+  · exact Or.inl h
+  · exact Or.inr ⟨l, h, result_shape gregory_ok h⟩
+
+theorem no_infinite_loop {votes : Profile} {cfg : Cfg} {n : Nat} (hstep : cfg.step = some (-1))
+    (hmand : cfg.mandatory = false) (hq : ∀ q, computeQuota cfg (totalVotes votes) n = some q → 0 < q)
+    (hn : n ≤ (allRanked votes).length) (ds : List Draw) :
+    selectorEvaluate gregory cfg votes n ds ≠ .error .votingSystemError := by
+  rcases selector_total ⟨hstep, hmand, hq⟩ hn ds with h | ⟨l, h⟩ <;> rw [h] <;> simp
+
 /-! ## what is known to fail: coalitions whose supporters share a rank inside the coalition -/
 
 section Witness
@@ -142,6 +198,9 @@ example : totalVotes fVotes / 2 < firstPrefTotal fVotes 0 ∧ firstPrefTotal fVo
     computeQuota wCfg (totalVotes fVotes) 1 = some 2 ∧ selectorEvaluate gregory wCfg fVotes 1 [] = .ok [0] := by
   decide +kernel
 example : pscCheck mVotes 6 [0] = true ∧ pscCheck mVotes 6 [1] = false := by decide +kernel
+/-- the profile on which the count stalled before the repair b992cbb: `{('c','a'):2, ('b',):8}`, two seats -/
+def lVotes : Profile := [([.one 2, .one 0], 2), ([.one 1], 8)]
+example : 2 ≤ (allRanked lVotes).length ∧ selectorEvaluate gregory wCfg lVotes 2 [] = .ok [1, 2] := by decide +kernel
 end Example
 
 end VL.C04
